@@ -548,8 +548,27 @@ func (w *world) opClaim(wrapper, inner int, n, h uint64, kind string) string {
 			admissible = true
 		}
 	}
+	// the oracle's next admissible nonce, computed from the raw store (absent key: lastObserved-1, floor 0)
+	var expect uint64
+	if found {
+		if bz := w.s.Ctx.KVStore(w.key).Get(crosschaintypes.GetLastEventNonceByOracleKey(oa)); len(bz) > 0 {
+			expect = sdk.BigEndianToUint64(bz) + 1
+		} else if lo := w.k.GetLastObservedEventNonce(w.s.Ctx); lo >= 1 {
+			expect = lo
+		} else {
+			expect = 1
+		}
+	}
 	before := w.snapshot()
 	res, _ := w.route(&crosschaintypes.MsgClaim{ChainName: w.chain, BridgerAddress: wa.String(), Claim: anyv})
+	if res == "ok" && found {
+		if n != expect {
+			w.violate("C01", fmt.Sprintf("claim accepted for event nonce %d although the oracle's next nonce is %d (skipped or repeated a nonce)", n, expect))
+		}
+		if bz := w.s.Ctx.KVStore(w.key).Get(crosschaintypes.GetLastEventNonceByOracleKey(oa)); sdk.BigEndianToUint64(bz) != n {
+			w.violate("C01", fmt.Sprintf("accepted claim for nonce %d did not move the oracle's last event nonce to it", n))
+		}
+	}
 	if res == "err:validate-basic" && wrapper != inner {
 		res = "err:signer-mismatch"
 	}
@@ -1347,6 +1366,23 @@ func (w *world) txLevel() {
 			}
 		}
 		_ = okc
+	}
+	// every wrapped claim type: the signer the codec derives from the proto signer option must be the bridger the vote
+	// is counted for (GetClaimer)
+	for _, cm := range []crosschaintypes.ExternalClaim{
+		&crosschaintypes.MsgSendToFxClaim{BridgerAddress: bAddr.String()}, &crosschaintypes.MsgBridgeCallClaim{BridgerAddress: bAddr.String()},
+		&crosschaintypes.MsgBridgeCallResultClaim{BridgerAddress: bAddr.String()}, &crosschaintypes.MsgSendToExternalClaim{BridgerAddress: bAddr.String()},
+		&crosschaintypes.MsgBridgeTokenClaim{BridgerAddress: bAddr.String()}, &crosschaintypes.MsgOracleSetUpdatedClaim{BridgerAddress: bAddr.String()},
+	} {
+		m, ok := cm.(sdk.Msg)
+		if !ok {
+			continue
+		}
+		sg := signers(m)
+		w.out.Count("signers:claim-type-checked")
+		if len(sg) != 1 || sg[0] != cm.GetClaimer().String() {
+			w.violate("C02", fmt.Sprintf("required signer %v of claim message %T is not the bridger the vote is counted for", sg, cm))
+		}
 	}
 	// in-process router (no wire round trip): is the mismatch accepted by ValidateBasic + handler?
 	claim = mk()
